@@ -70,6 +70,8 @@ CONSTANTS Policy,          \* "RR" | "BF"
           DevAddForgetsState,
           DevContradictionRaises,
           DevHalfValidAborts,
+          DevKnownPilotRaises,  \* (regression class) work() takes the record of a pilot known
+                                \* through a notification only for its document and raises
           HalfValid        \* commands may name pilots they cannot be applied to
 
 VARIABLES cs,              \* the code's bookkeeping (see TmgrOps)
@@ -80,16 +82,17 @@ VARIABLES cs,              \* the code's bookkeeping (see TmgrOps)
           gset,            \* backfilling ghost usage (see BFWalk)
           grole,           \* role as commanded by the task manager
           gst,             \* furthest pilot state ever notified or added
-          rrBad, bfBad     \* some scheduling call broke RRBalanced / BFEligible
+          rrBad, bfBad,    \* some scheduling call broke RRBalanced / BFEligible
+          failedBy         \* tasks advanced to FAILED by the scheduler component itself
 
-vars == <<cs, tst, bound, fwdCount, addedAtBind, gset, grole, gst, rrBad, bfBad>>
+vars == <<cs, tst, bound, fwdCount, addedAtBind, gset, grole, gst, rrBad, bfBad, failedBy>>
 
 Tasks  == SeqSet(TaskSeq)
 Pilots == SeqSet(PilotSeq)
 K == [policy |-> Policy, named |-> Named, cores |-> Cores, hwm |-> Hwm, lo |-> BFLo, hi |-> BFHi,
       devEarly |-> DevEarlyNotCleared, devRaise |-> DevBFRaiseSkipsBatch,
       devAddFresh |-> DevAddForgetsState, devCtrRaise |-> DevContradictionRaises,
-      devHalfValid |-> DevHalfValidAborts]
+      devHalfValid |-> DevHalfValidAborts, devKnownRaises |-> DevKnownPilotRaises]
 
 TSeqOf(B) == SelectSeq(TaskSeq,  LAMBDA t : t \in B)
 PSeqOf(P) == SelectSeq(PilotSeq, LAMBDA p : p \in P)
@@ -108,7 +111,7 @@ Init ==
   /\ addedAtBind = [t \in Tasks |-> "na"]
   /\ gset = [p \in Pilots |-> {}]
   /\ grole = [p \in Pilots |-> "none"] /\ gst = [p \in Pilots |-> "none"]
-  /\ rrBad = FALSE /\ bfBad = FALSE
+  /\ rrBad = FALSE /\ bfBad = FALSE /\ failedBy = {}
 
 \* ghost update for the result r of one callback; tst1 / gpre: task states and ghost
 \* usage after the callback's own effect, before its forwards are accounted
@@ -129,6 +132,7 @@ Apply(r, tst1, gpre, role2, st2) ==
   /\ gset' = w.gset
   /\ bfBad' = (bfBad \/ w.bad)
   /\ rrBad' = (rrBad \/ (Policy = "RR" /\ ~Balanced(K, r.fwd, r.cs.pids)))
+  /\ failedBy' = failedBy \cup SeqSet(FailOf(r))
 
 (* ------------------------------------------------------------------------ *)
 Submit(B) ==
@@ -234,6 +238,10 @@ InvWaitHeld ==
      ELSE Count(cs.wait, t) = 0
 
 \* C12 RRBalanced / BFEligible
+\* C05 / C12: the scheduler fails nobody (an exception leaving work() makes work_cb
+\* fail the whole bulk)
+InvNoSchedulerFailure == failedBy = {}
+
 InvRRBalanced == ~rrBad
 InvBFEligible == ~bfBad
 
